@@ -125,6 +125,30 @@ pub fn xyb_twin(p0: [f32; 3], keep: [bool; 3], e: &mut Expand) -> Option<[f32; 3
     None
 }
 
+/// A pixel of [0,1]^3 whose forward transform is bit-identical, in all three channels, to `target` (f64 inverse, then
+/// a +-10 ulp search in all three components with the library's forward conversion). With `target` = the round-trip
+/// result of the previous pixel this builds the image an in-place inverse trips over: an XYB pixel equal to the
+/// already converted (linear RGB) value of its left neighbour.
+pub fn xyb_preimage(target: [f32; 3]) -> Option<[f32; 3]> {
+    let s = oracle::xyb_to_lrgb([target[0] as f64, target[1] as f64, target[2] as f64]);
+    let start = [s[0] as f32, s[1] as f32, s[2] as f32];
+    if !start.iter().all(|v| *v > 1e-3 && *v < 0.999) {
+        return None;
+    }
+    const R: i32 = 10;
+    let step = |v: f32, d: i32| f32::from_bits((v.to_bits() as i32 + d) as u32);
+    let mut cands = Vec::with_capacity(((2 * R + 1) * (2 * R + 1) * (2 * R + 1)) as usize);
+    for da in -R..=R {
+        for db in -R..=R {
+            for dc in -R..=R {
+                cands.push([step(start[0], da), step(start[1], db), step(start[2], dc)]);
+            }
+        }
+    }
+    let out = forward(cands.clone())?;
+    cands.iter().zip(out.iter()).find(|(_, x)| (0..3).all(|k| x[k].to_bits() == target[k].to_bits())).map(|(q, _)| *q)
+}
+
 /// how many XYB twins `pixels()` placed (a class counter for the evidence)
 pub static TWINS_PLACED: std::sync::atomic::AtomicU64 = std::sync::atomic::AtomicU64::new(0);
 
@@ -161,6 +185,21 @@ impl Case {
                     let fb = |p: [f32; 3]| -> Option<[f32; 3]> { LinearRgb::new(vec![p], 1, 1).ok().map(|l| Xyb::from(l).data()[0]) };
                     let dom = |p: [f32; 3]| -> bool { p.iter().all(|x| x.is_finite() && *x >= 0.0 && *x <= if unit { 1.0 } else { 4.0 }) };
                     correlate_rows(&mut px, self.w, self.h, *seed, &fb, &dom);
+                }
+                if unit && seed % 16 == 6 && px.len() >= 2 {
+                    // C05: a pixel whose XYB equals, bit for bit, the round-trip result of its left neighbour
+                    let mut e = Expand(*seed ^ 0x9E1A);
+                    for _ in 0..4 {
+                        let i = e.below(px.len() as u64 - 1) as usize;
+                        let p0 = [e.range_f64(0.0, 0.02) as f32, e.range_f64(0.05, 0.8) as f32, e.range_f64(0.05, 0.8) as f32];
+                        let q0 = LinearRgb::new(vec![p0], 1, 1).ok().map(|l| LinearRgb::from(Xyb::from(l)).data()[0]);
+                        if let Some(p1) = q0.and_then(xyb_preimage) {
+                            px[i] = p0;
+                            px[i + 1] = p1;
+                            TWINS_PLACED.fetch_add(1, std::sync::atomic::Ordering::Relaxed);
+                            break;
+                        }
+                    }
                 }
                 if unit && seed % 8 == 5 && px.len() >= 2 {
                     // C05: up to three neighbours whose XYB agrees bit-exactly in one or two channels
@@ -455,4 +494,4 @@ pub fn replay_c05(v: &Value) -> Result<(), String> {
 }
 
 pub const RULE_C04: &str = "cases = w x h images (1..40 x 1..12, so pixel counts of every residue) of linear-RGB pixels from 9 strata, a third of the images with related neighbours (equal / partly equal / fed-back pixels), a quarter with related rows (a row equal to / mirrored from / the library's result for the row above), a fifth non-negative with one to three sparse pixels that have exactly one negative component, single-pixel and tiny images over-represented (uniform [0,4]^3, near-neutral, near black with log-uniform scale 1e-9..1e-1, greys, single channel, [-1,4]^3 with a negative component, unit cube, R close to G, lattice corners) generated by proptest, plus an enumerated lattice on [0,4]^3 and real-size images (32768 .. 2 M pixels); every in-domain pixel compared with the f64 opsin definition (tol 2e-6); negative pixels whose opsin mixes fall in (-1e-3, 0.05) are converted but not compared (outside the stated domain) and counted; non-trivial = image containing a non-grey pixel; distinct = by hash of (w,h,pixel bits)";
-pub const RULE_C05: &str = "cases = w x h images (1..40 x 1..12) of linear-RGB pixels of [0,1]^3 from 9 strata, a third of the images with related neighbours (equal / partly equal / fed-back pixels), one image in eight with neighbours whose forward transforms agree bit-exactly in one or two XYB channels and differ in the rest (found by inverting the changed XYB value in f64 and tuning by a few ulps), single-pixel and tiny images over-represented (uniform, near-neutral (grey + perturbations of scale 1e-7..1e-3), near black, greys, single channel, R close to G with |R-G| log-uniform 1e-7..1e-2, lattice corners) generated by proptest, plus an enumerated lattice on [0,1]^3 and real-size images (32768 .. 2 M pixels); oracle = LinearRgb -> Xyb -> LinearRgb returns every component within 5e-5, dimensions preserved; non-trivial = image containing a non-grey pixel; distinct = by hash of (w,h,pixel bits)";
+pub const RULE_C05: &str = "cases = w x h images (1..40 x 1..12) of linear-RGB pixels of [0,1]^3 from 9 strata, a third of the images with related neighbours (equal / partly equal / fed-back pixels), one image in eight with neighbours whose forward transforms agree bit-exactly in one or two XYB channels and differ in the rest (found by inverting the changed XYB value in f64 and tuning by a few ulps), one in sixteen with a pixel whose XYB is bit-identical to the round-trip result of its left neighbour, single-pixel and tiny images over-represented (uniform, near-neutral (grey + perturbations of scale 1e-7..1e-3), near black, greys, single channel, R close to G with |R-G| log-uniform 1e-7..1e-2, lattice corners) generated by proptest, plus an enumerated lattice on [0,1]^3 and real-size images (32768 .. 2 M pixels); oracle = LinearRgb -> Xyb -> LinearRgb returns every component within 5e-5, dimensions preserved; non-trivial = image containing a non-grey pixel; distinct = by hash of (w,h,pixel bits)";
